@@ -437,10 +437,40 @@ func Load(cfg LoadConfig) (*Prog, error) {
 			}
 		}
 	}
+	// a baseline function that is merely renamed (its key is missing, and exactly one unknown function of the
+	// same receiver has its signature) is not a new helper
+	renamed := map[*types.Func]bool{}
+	{
+		suitors := map[string][]*types.Func{} // missing baseline key → unknown functions that could be it
+		for k, fs := range perKey {
+			if _, known := baselineFuncs[k]; known {
+				continue
+			}
+			for _, f := range fs {
+				prefix := k[:strings.LastIndex(k, "|")+1]
+				for bk, bsig := range baselineFuncs {
+					if strings.HasPrefix(bk, prefix) && len(perKey[bk]) == 0 && bsig == funcSig(f) {
+						suitors[bk] = append(suitors[bk], f)
+					}
+				}
+			}
+		}
+		count := map[*types.Func]int{}
+		for _, fs := range suitors {
+			for _, f := range fs {
+				count[f]++
+			}
+		}
+		for _, fs := range suitors {
+			if len(fs) == 1 && count[fs[0]] == 1 {
+				renamed[fs[0]] = true
+			}
+		}
+	}
 	isNew := func(o *types.Func) bool {
 		k := funcKey(o)
-		if !baselineFuncs[k] {
-			return true
+		if _, known := baselineFuncs[k]; !known {
+			return !renamed[o]
 		}
 		return len(perKey[k]) > 1 && canonFuncObjName(o) != o.Name()
 	}
@@ -498,4 +528,21 @@ func Load(cfg LoadConfig) (*Prog, error) {
 	p2.Inlined, p2.NotInl = inlined, left
 	p2.Cfg = cfg
 	return p2, nil
+}
+
+// funcSig: parameter and result types of a function, with the module's named types under their canonical names.
+func funcSig(o *types.Func) string {
+	sig, ok := o.Type().(*types.Signature)
+	if !ok {
+		return ""
+	}
+	var parts []string
+	for i := 0; i < sig.Params().Len(); i++ {
+		parts = append(parts, typeShort(sig.Params().At(i).Type()))
+	}
+	parts = append(parts, "→")
+	for i := 0; i < sig.Results().Len(); i++ {
+		parts = append(parts, typeShort(sig.Results().At(i).Type()))
+	}
+	return strings.Join(parts, ",")
 }
